@@ -9,6 +9,8 @@ SPEC = {
         {"name": "TestGRPCGuns", "quick": 64, "thorough": 4000, "shards_quick": 8, "shards_thorough": 16, "timeout": 3000},
         {"name": "TestHTTP2Gun", "quick": 96, "thorough": 6000, "shards_quick": 8, "shards_thorough": 16, "timeout": 3000},
         {"name": "TestHTTP2ScenarioGun", "quick": 96, "thorough": 6000, "shards_quick": 8, "shards_thorough": 16, "timeout": 3000},
+        # a run of some tens of milliseconds per case (refused connections are instant); standstill deadline 10 s
+        {"name": "TestNamedTarget", "quick": 240, "thorough": 12000, "shards_quick": 8, "shards_thorough": 16, "timeout": 3000},
         {"name": "TestConnectProxy", "quick": 160, "thorough": 8000, "shards_quick": 8, "shards_thorough": 16, "timeout": 3000},
         # sleep-bound (15 s per case, the documented default timeout): the case count per process is fixed inside the test
         # (vf.Batch: 3 quick / 12 thorough, run concurrently); every case runs the grpc AND the grpc/scenario gun
@@ -88,7 +90,22 @@ SPEC = {
              "and `trace` (accounts connect / send / latency stages) are each drawn on or off for every case, independent of all other "
              "dimensions - the option only adds figures to the sample, so the same oracle judges all four combinations, in particular "
              "for exchanges that end WITHOUT any response (refused, closed before / inside the headers, reset, response-header timeout, "
-             "malformed status line, failed TLS handshake, refused CONNECT), where there is nothing to dump or to time. Pools are built by config.DecodeAndValidate, run by the real "
+             "malformed status line, failed TLS handshake, refused CONNECT), where there is nothing to dump or to time. Added after seeded defect C19/m17: targets written as a host NAME x the dialer option `dns-cache` x a target that is "
+             "down when the guns are built (TestNamedTarget; http, connect (connect-ssl on/off), http2, http/scenario and http2/scenario guns, 1-3 "
+             "instances, keep-alive on/off, shared client on/off for the uri guns, httptrace on/off): the target is a listener on a reserved port of "
+             "127.0.0.1 that refuses connections while it is down; five cases in six write it as a name of the loopback address (localhost in "
+             "the spellings this machine resolves to 127.0.0.1 only), one as the IP; `dial.dns-cache` is not written (documented default: on), "
+             "true or false; three cases in four the target is down at construction - when pandora's pre-resolution of a named target fails "
+             "and its DNS-caching dialer stays in use ('we should try to connect on every shoot') -, one in four up; half of the cases the "
+             "target changes once after k >= 1 finished shots (a down one comes up, an up one stops listening while its connections stay "
+             "served; then the schedule leaves 3 ms between shots), otherwise it stays as it was for the whole run (a target that is never up: "
+             "every shot of every instance is refused, each instance shoots again after a refused shot). Every ammo entry (4-9, more than "
+             "instances; answers ok / any status / empty / close / reset / bad status line / short body when it arrives) must leave one "
+             "sample: a failure (no status, net error) exactly when the target has no record of the request, the target's answer "
+             "otherwise; scenario invocations (1-3 steps, 3-7 invocations, every arriving request answered well) must each leave a prefix of "
+             "their steps ending either complete or at a failure sample, with as many clean 200 samples per step as the target received "
+             "requests; Engine.Run must return nil. A run in which no shot starts or finishes for 10 s (normal: under a millisecond "
+             "per shot) or that is not over after 90 s is a hang (goroutine stacks attached), judged without vf.LoadTolerant. Pools are built by config.DecodeAndValidate, run by the real "
              "engine, samples read from the real phout output. Non-trivial = at least one misbehaving exchange followed by a good one (refusing gRPC targets: "
              "at least one refused call reported and the run completed); "
              "distinct = hash of the case."),
